@@ -8,14 +8,20 @@ TEXT = {
     "C01": {
         "text": "Lean model of VerifyRefFull / VerifyRef / VerifyRefFromEntry (LoadState chain, range walk with policy/attestation "
                 "switching, verifyEntry with authorizations, code-review approvals, file rules, global rules, recovery loop) over an "
-                "abstract history; proved so far: the reported tip is the target of the latest entry, a reference without entries "
-                "never verifies (all histories, all variants). The soundness statement C01_sound_statement is kept at full strength "
-                "and is evaluated by the driver, as a decidable predicate written independently of the algorithm, on the verdict the "
-                "REAL verifier returns for every generated history; the model (with the open defects F1-F4 as explicit Variant flags) "
-                "must reproduce every verdict and tip of the real code.",
-        "note": TB + "The unbounded soundness theorem for the whole loop is not yet proved (statement in Props/C01.lean); known defects "
-                "F1, F2, F3 (and F4 via C02) are open findings reproduced on every run from corpus/C01.",
-        "technique": "Lean 4 model + partial theorems; differential correspondence with spec evaluated on the implementation",
+                "abstract history. Proved for EVERY history, range, starting state and variant (induction over the verification loop incl. "
+                "the recovery branch's queue rewriting): if relative / full verification accepts, every entry recorded for the reference "
+                "in the range is either revoked or was accepted by verifyEntry under a policy state and an attestation state that were "
+                "in force during the walk (relLoop_sound_gen, C01_relative_sound, C01_full_sound) - unconditionally for the repaired "
+                "F2/F3 behaviour, and for the code as it stands under the explicit side conditions 'no propagation entry for a branch in "
+                "range' and 'nothing revoked in range'; the reported tip is the target of the latest entry; a reference without entries "
+                "never verifies. F1_witness / F2_witness / F3_witness: kernel-evaluated histories on which the model of the unchanged "
+                "code accepts what the declarative property (c01Sound) forbids, and the repaired variants reject. The declarative "
+                "property is evaluated by the driver on the verdict the REAL verifier returns for every generated history; the model "
+                "(open defects as explicit Variant flags) must reproduce every verdict and tip of the real code.",
+        "note": TB + "Not yet a theorem: that verifyEntry's acceptance implies the declarative per-entry authorization (the C05/C09 theorems cover "
+                "its building blocks), and that the states 'in force during the walk' are exactly the ones immediately preceding each entry. "
+                "Open findings F1, F2, F3 (and F4 via C02) are reproduced on every run from corpus/C01.",
+        "technique": "Lean 4 proof (loop invariant by induction on fuel, queue-partition lemma for recovery) + differential correspondence with spec evaluated on the implementation",
     },
     "C05": {
         "text": "C05_sound / C05_invalid / C05_accept_satisfies are proved in Lean for every rule shape, every principal and key "
@@ -80,10 +86,14 @@ TEXT = {
         "text": "Lean model of the recovery branch of VerifyRelativeForRef (last good state, fix search, re-queuing). Proved for every "
                 "queue and history: a reported fix is an unskipped entry of the affected reference whose tree equals the last good tree "
                 "(skipped entries are never the fix), and when no unskipped intermediate is flagged every entry for the reference before "
-                "the fix is skipped (C07_fix_is_unskipped_treesame, C07_intermediates_skipped). The whole-loop statement "
-                "C07_sound_statement is kept at full strength and is evaluated, as a declarative predicate on the log, on every range the "
-                "REAL verifier accepts; the model must reproduce every verdict of the real code on the generated recovery patterns.",
-        "note": TB + "Whole-loop theorem not yet proved. F3 (fix entry never verified) is an open finding that also violates C07.",
+                "the fix is skipped (C07_fix_is_unskipped_treesame, C07_intermediates_skipped); every element of the searched queue ends "
+                "up deferred, chosen as the fix, or is a skipped entry of the affected reference (lookForFix_partition); and, by the "
+                "loop theorem relLoop_sound_gen (induction over the whole loop incl. re-queuing), in an accepted range every entry for the "
+                "reference that verifyEntry did not accept is marked skipped, deferred entries of other references are still processed. "
+                "The declarative statement C07_sound_statement (tree-same fix, all intermediates skipped) is evaluated on every range "
+                "the REAL verifier accepts; the model must reproduce every verdict of the real code on the generated recovery patterns.",
+        "note": TB + "The declarative 'tolerated' predicate (existence of the fix with the right tree) is not yet derived from the loop theorem. "
+                "F3 (fix entry never verified) is an open finding that also violates C07.",
         "technique": "Lean 4 proof of the fix-search invariants + differential correspondence on recovery patterns",
     },
     "C02": {
